@@ -3,6 +3,7 @@ from .common import *
 from .codewrite import *
 from .lifecycle import *
 
+PER_TARGET = True      # every rule below looks at one target configuration at a time (check.py may fork one worker per target)
 DECIDED = ("R17.1 in every normal variant of every public install root and of the guard destructor, each code write (dst, len) is followed, "
            "before the routine returns, by the platform's instruction-cache primitive for that target with a range that covers "
            "[dst, dst+len) by value: Linux __clear_cache(dst, dst+len); Windows FlushInstructionCache(_, dst, len) whose failure diverges; "
@@ -37,7 +38,7 @@ def covers(tm, fl, dst, real, cnt):
     return False
 
 
-def check_other_writes(ck, tm, label, v):
+def check_other_writes(ck, tm, label, v, rule="R17.2"):
     """Stores through raw pointers / other raw-write primitives (not the designated copy): they modify memory the rules
     cannot size, so each must be followed by a flush that covers at least its address."""
     for ev in v.trace:
@@ -51,32 +52,33 @@ def check_other_writes(ck, tm, label, v):
         later = [e for e in v.trace[ev.idx + 1:] if e.kind == "ffi" and e.name == FLUSH[tm.os]]
         one = int_const(1, tm.ptr_bits)
         cov = [e for e in later if addr is not None and covers(tm, e, addr, addr, one)]
-        ck.ob("R17.2", "%s/raw-write-after-last-flush/%s" % (tm.os, short(ev.name)), tm.target, bool(cov),
+        ck.ob(rule, "%s/raw-write-after-last-flush/%s" % (tm.os, short(ev.name)), tm.target, bool(cov),
               "%s: %s at %s is %s by a flush covering it (%d later flush call(s))" % (
                   label, ev.name, fmt(addr.e, 4) if addr is not None else "an unknown address", "followed" if cov else "NOT followed", len(later)), where(ev))
 
 
-def check_variant(ck, tm, label, v, writes):
-    check_other_writes(ck, tm, label, v)
+def check_variant(ck, tm, label, v, writes, rules=("R17.1", "R17.2")):
+    R1, R2 = rules
+    check_other_writes(ck, tm, label, v, R2)
     for ev, role, dst, real, alias in writes:
         cnt = ev.extra["count"]
         later = [e for e in v.trace[ev.idx + 1:] if e.kind == "ffi" and e.name == FLUSH[tm.os]]
         cov = [e for e in later if covers(tm, e, dst, real, cnt)]
         key = "%s/%s/%s" % (tm.os, role, "flush-after-write" if cov else "no-covering-flush")
-        ck.ob("R17.1", key, tm.target, bool(cov),
+        ck.ob(R1, key, tm.target, bool(cov),
               "%s: %s write of %s byte(s) at %s is %s by %s (%d later call(s) to the primitive, %d covering)" % (
                   label, role, fmt(cnt.e), fmt(dst.e, 3), "followed" if cov else "NOT followed", short(FLUSH[tm.os]), len(later), len(cov)), where(ev))
         if cov:
             last = cov[-1]
             # R17.2: no later write to an overlapping destination after the last covering flush
             after = [e for e in v.trace[last.idx + 1:] if e.kind == "raw_write" and (same_expr(e.extra["dst"].e, dst.e))]
-            ck.ob("R17.2", "%s/%s/no-write-after-flush" % (tm.os, role), tm.target, not after,
+            ck.ob(R2, "%s/%s/no-write-after-flush" % (tm.os, role), tm.target, not after,
                   "%s: %d write(s) to the same range after its last flush" % (label, len(after)), where(after[0]) if after else where(last))
             if tm.os == "windows":
                 # failure of the flush must diverge: there must be a decision on its result
                 res = last.ret
                 tested = isinstance(res, Int) and any(res.e in (d[0].args if d[0].op in ("eq", "ne") else ()) for d in v.decisions)
-                ck.ob("R17.1", "windows/%s/flush-result-checked" % role, tm.target, tested, "%s: the result of FlushInstructionCache is %s" % (label, "tested" if tested else "ignored"), where(last))
+                ck.ob(R1, "windows/%s/flush-result-checked" % role, tm.target, tested, "%s: the result of FlushInstructionCache is %s" % (label, "tested" if tested else "ignored"), where(last))
 
 
 def run(ck, models, tier):
@@ -110,3 +112,29 @@ def run(ck, models, tier):
         for key, m in list(tm.machines.items()):
             for f in m.entered:
                 ck.analysed_fn(tm.target, f)
+
+
+def flush_obligations(ck, tm, rules, install=True, restore=True):
+    """The flush rules of C17 under another property's rule ids: C01 repeats them for the install writes (a call cannot be said
+    to reach the fake while a core may still execute the stale entry), C02 for the restoring write (the function does not behave
+    as before until the restored bytes are what the cores execute)."""
+    n = 0
+    if install:
+        for p, func, repl, boolval in patches.roots_and_roles(tm):
+            for v in tm.variants(p):
+                if v.status != "returned":
+                    continue
+                cw = classify_writes(v, func)
+                if tm.arch == "arm":
+                    cw = [(ev, "entry", d, r, a) for ev, _, d, r, a in cw]
+                n += len(cw)
+                check_variant(ck, tm, short(p), v, cw, rules)
+    g = guard_roles(tm)
+    if restore and g.drop_fn:
+        for v in tm.variants(g.drop_fn):
+            if v.status != "returned":
+                continue
+            cw = [(ev, "restore", ev.extra["dst"], resolve_alias(v, ev.extra["dst"])[0], None) for ev in code_writes(v)]
+            n += len(cw)
+            check_variant(ck, tm, "guard destructor", v, cw, rules)
+    return n
